@@ -1,0 +1,24 @@
+//go:build verif
+// +build verif
+
+// Contracts for package hevc, read by /verif's govc (contract-based deductive verification).
+// This file contains comments only; it is compiled only under the build tag "verif" and adds no code.
+
+package hevc
+
+// ---- picture size from the SPS: ITU-T H.265 (7-?) conformance window, Table 6-1 ------------------------------
+//@ spec func chromaArrayType5(sps *H265RawSPS) int = iteInt(sps.Separate_colour_plane_flag != 0, 0, int(sps.Chroma_format_idc))
+//@ spec func subWidthC5(sps *H265RawSPS) int = iteInt(chromaArrayType5(sps) == 1 || chromaArrayType5(sps) == 2, 2, 1)
+//@ spec func subHeightC5(sps *H265RawSPS) int = iteInt(chromaArrayType5(sps) == 1, 2, 1)
+
+//@ func (sps *H265RawSPS) Width() (w int)
+//@   requires sps != nil
+//@   modifies
+//@   ensures sps.Conformance_window_flag == 1 ==> w == int(sps.Pic_width_in_luma_samples) - subWidthC5(sps)*(int(sps.Conf_win_left_offset)+int(sps.Conf_win_right_offset))
+//@   ensures sps.Conformance_window_flag != 1 ==> w == int(sps.Pic_width_in_luma_samples)
+
+//@ func (sps *H265RawSPS) Height() (h int)
+//@   requires sps != nil
+//@   modifies
+//@   ensures sps.Conformance_window_flag == 1 ==> h == int(sps.Pic_height_in_luma_samples) - subHeightC5(sps)*(int(sps.Conf_win_top_offset)+int(sps.Conf_win_bottom_offset))
+//@   ensures sps.Conformance_window_flag != 1 ==> h == int(sps.Pic_height_in_luma_samples)
